@@ -1,27 +1,25 @@
 // UNIT v9.packet -- nom-derive expansion of v9::V9 (header, then FlowSetParser::parse_flowsets(i, parser, header.count)),
 // src/variable_versions/v9.rs:51-59.  C02/C04/C11: the 18 header bytes are decoded per RFC 3954, the flowset loop is
 // started exactly after them with exactly header.count, its remainder and result are returned unchanged, an error
-// fails the packet.  The loop itself (try_fold over a closure) is NOT under contract: uninterpreted v9_flowsets_fn.
+// fails the packet.  The loop is called through its contract stubs/v9_parse_flowsets.rs, discharged by V.v9.flowsets.
 //@ include prelude.rs
 verus! {
-#[verifier::external_body] pub struct FlowSet { _p: () }
+#[verifier::external_body] pub struct FlowSetBody { _p: () }
 #[verifier::external_body] pub struct V9Parser { _p: () }
+//@ type src/variable_versions/v9.rs - FlowSet
 //@ type src/variable_versions/v9.rs - V9
 //@ type src/variable_versions/v9.rs - Header
 //@ type src/variable_versions/v9.rs - FlowSetHeader
 }
 //@ layout v9
+//@ include v9_set_spec.rs
 verus! {
-pub uninterp spec fn v9_flowsets_fn(st: V9Parser, b: Seq<u8>, count: u16) -> (Option<(Vec<FlowSet>, Seq<u8>)>, V9Parser);
 pub open spec fn nom_view<T>(r: IResult<&[u8], T>) -> Option<(T, Seq<u8>)> {
     match r { Ok((rest, v)) => Some((v, rest@)), Err(_) => None }
 }
 pub struct FlowSetParser;
 impl FlowSetParser {
-    #[verifier::external_body]
-    fn parse_flowsets<'a>(i: &'a [u8], parser: &mut V9Parser, record_count: u16) -> (r: IResult<&'a [u8], Vec<FlowSet>>)
-        ensures (nom_view(r), *final(parser)) == v9_flowsets_fn(*old(parser), i@, record_count),
-    { unimplemented!() }
+//@ stub stubs/v9_parse_flowsets.rs
 }
 impl Header {
     // V.v9.templates + K.v9.header
@@ -33,10 +31,10 @@ impl Header {
 pub open spec fn v9_packet_post<'a>(old_p: V9Parser, new_p: V9Parser, b: &'a [u8], r: IResult<&'a [u8], V9>) -> bool {
     if b@.len() < 18 { r is Err && new_p == old_p } else {
         let h = v9_header_dec(b@, 0);
-        let (res, st1) = v9_flowsets_fn(old_p, b@.subrange(18, b@.len() as int), h.count);
+        let (res, st1) = flowsets_spec(old_p, b@.subrange(18, b@.len() as int), h.count as int);   // the flowset loop (V.v9.flowsets)
         &&& new_p == st1
         &&& (res is None ==> r is Err)
-        &&& (res is Some ==> r is Ok && r->Ok_0.1.header == h && r->Ok_0.1.flowsets == res->Some_0.0 && r->Ok_0.0@ == res->Some_0.1)
+        &&& (res is Some ==> r is Ok && r->Ok_0.1.header == h && r->Ok_0.1.flowsets@ =~= res->Some_0.0 && r->Ok_0.0@ =~= res->Some_0.1)
     }
 }
 impl V9 {
